@@ -21,7 +21,7 @@ Theorem C09_destination_registered :
     (soap_only bindings /\ b = B_SOAP /\ d = []) \/
     (exists s eid, kind_service (rq_kind r) = Some s /\ request_entity r = Ok eid /\
                    registered md eid (kind_role c (rq_kind r) dt) s b d).
-Proof. exact (response_args_registered false). Qed.
+Proof. exact (response_args_registered true). Qed.
 Print Assumptions C09_destination_registered.
 
 (* (2a) a consumer URL supplied in the request is answered only to itself and
@@ -32,7 +32,7 @@ Theorem C09_url_exact :
     response_args c md r bindings dt = Ok (Some (b, d)) ->
     d = u /\ exists s eid, kind_service (rq_kind r) = Some s /\ request_entity r = Ok eid /\
                            registered md eid (kind_role c (rq_kind r) dt) s b u.
-Proof. exact (response_args_url false). Qed.
+Proof. exact (response_args_url true). Qed.
 Print Assumptions C09_url_exact.
 
 (* (2b) … hence a URL that differs from every registered location (in case, by
@@ -45,7 +45,7 @@ Theorem C09_unregistered_url_refused :
     kind_service (rq_kind r) = Some s -> request_entity r = Ok eid ->
     (forall b, ~ registered md eid (kind_role c (rq_kind r) dt) s b u) ->
     exists e, response_args c md r bindings dt = Err e.
-Proof. exact (response_args_url_unregistered false). Qed.
+Proof. exact (response_args_url_unregistered true). Qed.
 Print Assumptions C09_unregistered_url_refused.
 
 (* (2c) the other direction: over metadata whose endpoint dicts all carry
@@ -61,7 +61,7 @@ Theorem C09_registered_url_honoured :
         store_service md eid (kind_role c (rq_kind r) dt) (svc_name s) b = Ok (SList l) /\
         In sv l /\ sv_location sv = Some u) ->
     exists b', response_args c md r bindings dt = Ok (Some (b', u)).
-Proof. exact (response_args_url_honoured false). Qed.
+Proof. exact (response_args_url_honoured true). Qed.
 Print Assumptions C09_registered_url_honoured.
 
 (* (3) no source describes the issuer under the consulted role (in particular:
@@ -74,7 +74,7 @@ Theorem C09_unknown_requester :
        forall src e descs, In src md -> In e src -> en_id e = eid ->
                            ~ In (kind_role c (rq_kind r) dt, descs) (en_roles e)) ->
     exists e, response_args c md r bindings dt = Err e.
-Proof. exact (response_args_unknown false). Qed.
+Proof. exact (response_args_unknown true). Qed.
 Print Assumptions C09_unknown_requester.
 
 Theorem C09_absent_requester :
@@ -84,7 +84,7 @@ Theorem C09_absent_requester :
     exists e, response_args c md r bindings dt = Err e.
 Proof.
   intros c md r bindings dt s eid Hns Hk He Hno.
-  apply (response_args_unknown false c md r bindings dt s Hns Hk).
+  apply (response_args_unknown true c md r bindings dt s Hns Hk).
   intros eid' He' src e descs H1 H2 H3 _. apply Hno. exists src, e.
   repeat split; try assumption. congruence.
 Qed.
@@ -94,7 +94,7 @@ Theorem C09_no_issuer :
   forall c md r bindings dt s e0,
     ~ soap_only bindings -> kind_service (rq_kind r) = Some s -> request_entity r = Err e0 ->
     exists e, response_args c md r bindings dt = Err e.
-Proof. exact (response_args_no_issuer false). Qed.
+Proof. exact (response_args_no_issuer true). Qed.
 Print Assumptions C09_no_issuer.
 
 (* ------------------------------------------------------------------ *)
@@ -113,6 +113,36 @@ Definition index_statement (both : bool) : Prop :=
                    registered_sv md eid (s2l "spsso_descriptor") ACS sv /\
                    sv_binding sv = Some b /\ sv_location sv = Some d /\ sv_index sv = Some i.
 
+(* (4) holds for the code as it stands (both attributes read independently,
+   fix: 05de9b7d in /repo) *)
+Theorem C09_index : index_statement true.
+Proof.
+  intros c md r bindings dt i b d Hk _ Hu Hi Ht Hns H.
+  destruct (response_args_index true c md r bindings dt i b d) as (s & eid & sv & Hs & He & Hreg & Hb & Hl & Hx);
+    try assumption.
+  - unfold read_url_index. destruct Hu as [-> | ->]; [left|right]; reflexivity.
+  - unfold read_url_index. destruct Hu as [-> | ->]; rewrite Hi; reflexivity.
+  - rewrite Hk in Hs, Hreg. cbn in Hs. injection Hs as <-. exists eid, sv. repeat split; assumption.
+Qed.
+Print Assumptions C09_index.
+
+(* the same in terms of response_args itself: an AuthnRequest naming an index
+   and no URL is answered only to an endpoint that carries exactly that index;
+   if no registered endpoint carries it the request is refused *)
+Theorem C09_unknown_index_refused :
+  forall c md r bindings dt i,
+    rq_kind r = KAuthn -> class_shape r ->
+    (rq_url r = Has None \/ rq_url r = Has (Some [])) ->
+    rq_index r = Has (Some i) -> py_truthy i = true -> ~ soap_only bindings ->
+    (forall eid sv, registered_sv md eid (s2l "spsso_descriptor") ACS sv -> sv_index sv <> Some i) ->
+    forall b d, response_args c md r bindings dt <> Ok (Some (b, d)).
+Proof.
+  intros c md r bindings dt i Hk Hc Hu Hi Ht Hns Hno b d H.
+  destruct (C09_index c md r bindings dt i b d Hk Hc Hu Hi Ht Hns H) as (eid & sv & _ & Hreg & _ & _ & Hx).
+  exact (Hno eid sv Hreg Hx).
+Qed.
+Print Assumptions C09_unknown_index_refused.
+
 (* witness: one SP, one POST endpoint with index 0; the request names index 7 *)
 Definition w_sp   : str := s2l "https://sp.example.org/sp".
 Definition w_acs  : str := s2l "https://sp.example.org/acs/a".
@@ -123,15 +153,15 @@ Definition w_cfg : config := idp_config default_preferred.
 Definition w_req (url idx : option str) : request :=
   mk_req KAuthn (Some (Some w_sp)) (Has None) (Has url) (Has idx).
 
-(* The code as it stands REFUTES the full statement: the index is read only
+(* BEFORE the repair the code REFUTED the statement: the index was read only
    inside the except-branch of the URL read, an AuthnRequest always has the URL
-   attribute, so index 7 — which no endpoint carries — is answered to the
+   attribute, so index 7 — which no endpoint carries — was answered to the
    first endpoint of the preferred binding. *)
-Theorem C09_index_refuted :
+Theorem C09_index_before_fix_refuted :
   exists c md r i b d,
     rq_kind r = KAuthn /\ class_shape r /\ rq_url r = Has None /\ rq_index r = Has (Some i) /\
     py_truthy i = true /\
-    response_args c md r None [] = Ok (Some (b, d)) /\
+    response_args_before_fix c md r None [] = Ok (Some (b, d)) /\
     (forall eid role s sv, registered_sv md eid role s sv -> sv_index sv <> Some i).
 Proof.
   exists w_cfg, w_md, (w_req None (Some (s2l "7"))), (s2l "7"), B_POST, w_acs.
@@ -143,73 +173,26 @@ Proof.
   injection H4 as _ <-. destruct H5 as [<-|[]]. destruct H6 as [<-|[]].
   vm_compute. discriminate.
 Qed.
-Print Assumptions C09_index_refuted.
+Print Assumptions C09_index_before_fix_refuted.
 
-Theorem C09_index_statement_fails : ~ index_statement false.
-Proof.
-  intros H.
-  destruct (H w_cfg w_md (w_req None (Some (s2l "7"))) None [] (s2l "7") B_POST w_acs)
-    as (eid & sv & _ & (src & e & descs & dd & H1 & H2 & _ & H4 & H5 & H6 & _) & _ & _ & Hi).
-  - reflexivity.
-  - cbn; repeat split; discriminate.
-  - left; reflexivity.
-  - reflexivity.
-  - reflexivity.
-  - intros Hs; discriminate Hs.
-  - vm_compute; reflexivity.
-  - destruct H1 as [<-|[]]. destruct H2 as [<-|[]]. destruct H4 as [H4|[]].
-    injection H4 as <-. destruct H5 as [<-|[]]. destruct H6 as [<-|[]].
-    vm_compute in Hi. discriminate Hi.
-Qed.
-Print Assumptions C09_index_statement_fails.
-
-(* what IS true of the code: whenever the request object has a <service>_url
-   attribute (every AuthnRequest), the index has no influence whatsoever … *)
-Theorem C09_index_ignored :
+(* … for any request object that has the <service>_url attribute (every
+   AuthnRequest) the index had no influence whatsoever before the repair *)
+Theorem C09_index_ignored_before_fix :
   forall c md r bindings dt i,
     rq_url r <> Missing ->
-    response_args c md (set_index r i) bindings dt = response_args c md r bindings dt.
+    response_args_before_fix c md (set_index r i) bindings dt = response_args_before_fix c md r bindings dt.
 Proof. exact index_ignored. Qed.
-Print Assumptions C09_index_ignored.
+Print Assumptions C09_index_ignored_before_fix.
 
-(* … PARTIAL: when the index is what gets consulted (a request object without
-   the URL attribute), the answer is an endpoint carrying exactly that index —
-   an unknown index is then refused *)
-Theorem C09_index_partial :
-  forall c md r bindings dt i b d,
-    rq_url r = Missing -> rq_index r = Has (Some i) -> py_truthy i = true -> ~ soap_only bindings ->
-    response_args c md r bindings dt = Ok (Some (b, d)) ->
-    exists s eid sv, kind_service (rq_kind r) = Some s /\ request_entity r = Ok eid /\
-                     registered_sv md eid (kind_role c (rq_kind r) dt) s sv /\
-                     sv_binding sv = Some b /\ sv_location sv = Some d /\ sv_index sv = Some i.
-Proof.
-  intros c md r bindings dt i b d Hu Hi. apply (response_args_index false).
-  - left. unfold read_url_index. rewrite Hu. reflexivity.
-  - unfold read_url_index. rewrite Hu, Hi. reflexivity.
-Qed.
-Print Assumptions C09_index_partial.
-
-(* … and the full statement holds for the repaired reads (both attributes read
-   independently, as upstream pysaml2 does); (1)-(3) hold for them as well *)
-Theorem C09_index_when_read_both : index_statement true.
-Proof.
-  intros c md r bindings dt i b d Hk _ Hu Hi Ht Hns H.
-  destruct (response_args_index true c md r bindings dt i b d) as (s & eid & sv & Hs & He & Hreg & Hb & Hl & Hx);
-    try assumption.
-  - unfold read_url_index. destruct Hu as [-> | ->]; [left|right]; reflexivity.
-  - unfold read_url_index. destruct Hu as [-> | ->]; rewrite Hi; reflexivity.
-  - rewrite Hk in Hs, Hreg. cbn in Hs. injection Hs as <-. exists eid, sv. repeat split; assumption.
-Qed.
-Print Assumptions C09_index_when_read_both.
-
-Theorem C09_repair_keeps_the_rest :
+(* the repair changed nothing else: clause (1) held before it as well *)
+Theorem C09_before_fix_destination_registered :
   forall c md r bindings dt b d,
-    response_args_with true c md r bindings dt = Ok (Some (b, d)) ->
+    response_args_before_fix c md r bindings dt = Ok (Some (b, d)) ->
     (soap_only bindings /\ b = B_SOAP /\ d = []) \/
     (exists s eid, kind_service (rq_kind r) = Some s /\ request_entity r = Ok eid /\
                    registered md eid (kind_role c (rq_kind r) dt) s b d).
-Proof. exact (response_args_registered true). Qed.
-Print Assumptions C09_repair_keeps_the_rest.
+Proof. exact (response_args_registered false). Qed.
+Print Assumptions C09_before_fix_destination_registered.
 
 (* ------------------------------------------------------------------ *)
 (* non-vacuity: the hypotheses are met by concrete requests            *)
@@ -236,10 +219,10 @@ Example C09_witness :
     = Err E_UnknownEnt /\
   response_args w_cfg w_md2 (mk_req KLogout (Some (Some w_sp)) Missing Missing Missing) (Some [B_SOAP; B_POST]) []
     = Ok (Some (B_POST, s2l "https://sp.example.org/slo")) /\
-  (* the defect, and the repaired reads on the same input *)
-  response_args w_cfg w_md2 (w_req None (Some (s2l "7"))) None [] = Ok (Some (B_POST, w_acs)) /\
-  response_args_with true w_cfg w_md2 (w_req None (Some (s2l "7"))) None [] = Err E_SAML /\
-  response_args_with true w_cfg w_md2 (w_req None (Some (s2l "1"))) None []
-    = Ok (Some (B_REDIRECT, s2l "https://sp.example.org/acs/ab")).
+  (* unknown index refused, known index honoured; the defect before the repair on the same input *)
+  response_args w_cfg w_md2 (w_req None (Some (s2l "7"))) None [] = Err E_SAML /\
+  response_args w_cfg w_md2 (w_req None (Some (s2l "1"))) None []
+    = Ok (Some (B_REDIRECT, s2l "https://sp.example.org/acs/ab")) /\
+  response_args_before_fix w_cfg w_md2 (w_req None (Some (s2l "7"))) None [] = Ok (Some (B_POST, w_acs)).
 Proof. vm_compute. repeat split; reflexivity. Qed.
 Print Assumptions C09_witness.
